@@ -39,6 +39,11 @@ def main():
     try:
         ap = sh(f"git -C {wt} apply {src / 'patch.diff'}")
         if ap.returncode:
+            # /repo has moved on since the change was cut (fix: commits): fall back to a 3-way merge
+            ap = sh(f"git -C {wt} apply -3 {src / 'patch.diff'}")
+            if not ap.returncode and sh(f"git -C {wt} diff --name-only --diff-filter=U").stdout.strip():
+                ap.returncode = 1
+        if ap.returncode:
             print("PATCH DOES NOT APPLY", ap.stderr); return 2
         res["baseline_missing"] = muttest.baseline_ok(wt)
         sh(f"rsync -a --exclude .git --exclude replays {VERIF}/ {vc}/")
